@@ -301,6 +301,9 @@ def run(f, fixture, rep, cfg, tier):
     ft = c15.fromstr_table(frm[0]) if frm else {}
     have = set((enc_arms or {}).keys())
     for v, (erx, drx, frx, hs) in CODECS.items():
+        if cfg == "no-default":
+            rep.notes.append("no compression codec is compiled in this configuration")
+            break
         if enc_arms is None or dec_arms is None or fin_arms is None:
             rep.finding("R6", "codec|anchor", "codec match arms not found")
             break
